@@ -428,6 +428,57 @@ let cmd_mcli args =
              | Message m -> "message " ^ ostr m))
   | _ -> failwith "mcli: bad arguments"
 
+(* lex <texthex> *)
+let token_str (t : token) : Stdlib.String.t =
+  match t with
+  | TAndAnd -> "AndAnd" | TOrOr -> "OrOr" | TEqual -> "Equal" | TNotEqual -> "NotEqual"
+  | TGreaterEqual -> "GreaterEqual" | TGreater -> "Greater" | TLessEqual -> "LessEqual" | TLess -> "Less"
+  | TAssign -> "Assign" | TRightShift -> "RightShift" | TLeftShift -> "LeftShift" | TComma -> "Comma"
+  | TSemicolon -> "Semicolon" | TPlus -> "Plus" | TMinus -> "Minus" | TAnd -> "And" | TOr -> "Or" | TXor -> "Xor"
+  | TTimes -> "Times" | TDivide -> "Divide" | TNot -> "Not"
+  | TLit v -> Printf.sprintf "Constant 0x%s %s" (hex_of_n v.bits) (width_str v.wd)
+  | TOpenParen -> "OpenParen" | TCloseParen -> "CloseParen" | TOpenBrace -> "OpenBrace" | TCloseBrace -> "CloseBrace"
+  | TOpenBracket -> "OpenBracket" | TCloseBracket -> "CloseBracket" | TColon -> "Colon" | TComplement -> "Complement"
+  | TDotDot -> "DotDot" | TWire -> "Wire" | TConst -> "Const" | TRegister -> "Register" | TIn -> "In"
+  | TIdentifier name -> "Identifier " ^ string_of_bytes name
+
+let lex_error_str (e : lex_error) : Stdlib.String.t =
+  match e with
+  | LexLexicalError loc -> let l = int_of_nat loc in Printf.sprintf "LexicalError||%d:%d" l (l + 1)
+  | LexUnterminatedComment loc -> let l = int_of_nat loc in Printf.sprintf "UnterminatedComment||%d:%d" l (l + 2)
+  | LexInvalidConstant (s, e) -> Printf.sprintf "InvalidConstant||%d:%d" (int_of_nat s) (int_of_nat e)
+
+let cmd_mlex args =
+  match args with
+  | [h] ->
+    let (toks, err) = lex test_uclass (bytes_of (hex_decode h)) in
+    List.iter (fun ((s, t), e) -> emit (Printf.sprintf "tok %d %d %s" (int_of_nat s) (int_of_nat e) (token_str t))) toks;
+    (match err with Some e -> emit ("err " ^ lex_error_str e) | None -> ())
+  | _ -> failwith "lex: bad arguments"
+
+(* parse <texthex> <spans-ignored> *)
+let sexp_of_stmt (s : stmt) : Stdlib.String.t =
+  match s with
+  | SConst decls ->
+    "(const" ^ Stdlib.String.concat "" (List.map (fun (n, e) -> Printf.sprintf " (def %s %s)" (ostr n) (sexp_of_expr e)) decls) ^ ")"
+  | SWire decls ->
+    "(wire" ^ Stdlib.String.concat "" (List.map (fun (n, w) -> Printf.sprintf " (decl %s %s)" (ostr n) (width_str w)) decls) ^ ")"
+  | SAssign assigns ->
+    "(assign" ^ Stdlib.String.concat "" (List.map (fun (names, e) ->
+        Printf.sprintf " (set (%s) %s)" (Stdlib.String.concat " " (List.map ostr names)) (sexp_of_expr e)) assigns) ^ ")"
+  | SBank (name, regs) ->
+    "(register " ^ ostr name ^ Stdlib.String.concat "" (List.map (fun ((n, w), e) ->
+        Printf.sprintf " (reg %s %s %s)" (ostr n) (width_str w) (sexp_of_expr e)) regs) ^ ")"
+
+let cmd_mparse args =
+  match args with
+  | h :: _ ->
+    let tiers = match gen_tiers with Some t -> t | None -> [] in
+    (match parse_text test_uclass tiers (bytes_of (hex_decode h)) with
+     | Some stmts -> List.iter (fun s -> emit ("stmt " ^ sexp_of_stmt s)) stmts
+     | None -> emit "err")
+  | _ -> failwith "parse: bad arguments"
+
 let dispatch cmd args =
   match cmd with
   | "dis" -> cmd_dis args
@@ -438,6 +489,8 @@ let dispatch cmd args =
   | "mgraph" -> cmd_mgraph args
   | "yo" -> cmd_myo args
   | "mbuild" -> cmd_mbuild args
+  | "parse" -> cmd_mparse args
+  | "lex" -> cmd_mlex args
   | "mcli" -> cmd_mcli args
   | "region" -> cmd_mregion args
   | "mvalid" -> cmd_mvalid args
